@@ -3,6 +3,8 @@ import UmProofs.BrokerScaleCommitD
 import UmProofs.BrokerScaleCreate
 import UmProofs.BrokerScaleOut
 import UmProofs.BrokerScaleDownC
+import UmProofs.BrokerScaleFinalB
+import UmProofs.BrokerScaleDisj
 /-!
 # C10 — Scaling completes to a balanced full partition and frees only empty chunks
 
@@ -24,12 +26,21 @@ hypotheses — no bound on the number of chunks, tasks, or commits.
   `MIGRATION_TASK_NOT_FOUND` without any change, and any chain of `k` successful commits (any
   order, any `clear` flag) leaves exactly `#pending - k` pending entries: the migration is over
   after exactly `#pending` commits and can always be continued before.
-* `C10_balanced_create`, `C10_balanced_scale_out_plan_partial`,
-  `C10_balanced_scale_down_plan_partial` — the arithmetic core: `add_cluster` creates a balanced
-  cluster; on a balanced cluster the two planners neither panic nor run out of fuel, leave every
-  source master with exactly its new quota (scale-out) resp. drained (scale-down) and plan for
-  every destination master exactly what it lacks to its new quota (the greedy two-pointer lemma
-  is `srcChunks_spec` / `downChunks_spec` in `UmProofs/BrokerScalePlanC.lean`, `…DownB.lean`).
+* `C10_balanced_create`, `C10_scale_out_plan`, `C10_scale_down_plan` — the arithmetic core:
+  `add_cluster` creates a balanced cluster; on a balanced cluster the two planners neither panic
+  nor run out of fuel, leave every source master with exactly its new quota (scale-out) resp.
+  drained (scale-down) and plan for every destination master exactly what it lacks to its new quota
+  (the greedy two-pointer lemma is `srcChunks_spec` / `downChunks_spec` in
+  `UmProofs/BrokerScalePlanC.lean`, `…DownB.lean`).
+* `C10_balanced_scale_out`, `C10_balanced_scale_down` — end to end: from a balanced cluster,
+  `migrate_slots` / `migrate_slots_to_scale_down` succeed (no panic in the planner nor in
+  `assign_dst_slots`), and if the resulting cluster satisfies the shared invariants
+  `PosInv ∧ TwinInv ∧ SlotInv` (their preservation by every operation is C01's obligation), then
+  every chain of successful commits — any order, any `clear` flags — that exhausts the pending
+  tasks ends in a balanced cluster with the new master number; after a scale-in to `n'` chunks
+  exactly the chunks `≥ n'` are slot-less (and gone if the last commit cleared them).
+  `C10_balanced_partial` is the name under which the still conditional part is listed: commits
+  interleaved with failovers are not covered by a theorem.
 -/
 namespace Um.Broker.C10
 open Um Um.Slots Um.Broker Um.Broker.Scale
@@ -253,24 +264,87 @@ theorem C10_quota (m : Nat) (hm : 0 < m) :
   refine ⟨?_, sum_quota m hm⟩
   intro i j; unfold quota; split <;> split <;> omega
 
-/-- **C10_balanced_scale_out_plan_partial** (plan half of `C10_balanced` for scale-out): see
+/-- **C10_scale_out_plan** (plan half of `C10_balanced` for scale-out): see
 `removeSlotsFromSrc_balanced` -/
-theorem C10_balanced_scale_out_plan_partial {cl : Cluster} {A B : List Chunk} {n k : Nat} (e : Nat)
+theorem C10_scale_out_plan {cl : Cluster} {A B : List Chunk} {n k : Nat} (e : Nat)
     (hch : cl.chunks = A ++ B) (hA : A.length = n) (hB : B.length = k) (hn : 0 < n) (hk : 0 < k)
     (hfull : FullChunks (n * 2) A 0) (hempty : EmptyChunks B) (hM : (n + k) * 2 ≤ SLOT_NUM) :
     ∃ A' out, removeSlotsFromSrc cl e = R.ok (A' ++ B, out) ∧ A'.length = n ∧
       FullChunks ((n + k) * 2) A' 0 ∧ OutPlan n k e out ∧ (NoMigs A → NoMigs A') :=
   removeSlotsFromSrc_balanced e hch hA hB hn hk hfull hempty hM
 
-/-- **C10_balanced_scale_down_plan_partial** (plan half of `C10_balanced` for scale-down): see
+/-- **C10_scale_down_plan** (plan half of `C10_balanced` for scale-down): see
 `removeSlotsToScaleDown_balanced` -/
-theorem C10_balanced_scale_down_plan_partial {cl : Cluster} {n n' : Nat} (e : Nat)
+theorem C10_scale_down_plan {cl : Cluster} {n n' : Nat} (e : Nat)
     (hfull : FullChunks (n * 2) cl.chunks 0) (hlen : cl.chunks.length = n) (h0 : 0 < n') (hlt : n' < n)
     (hM : n * 2 ≤ SLOT_NUM) :
     ∃ out, removeSlotsToScaleDown cl e n' =
         R.ok (cl.chunks.take n' ++ (cl.chunks.drop n').map (fun ch => { ch with stable0 := none, stable1 := none }),
               out) ∧ DownPlan n n' e out :=
   removeSlotsToScaleDown_balanced e hfull hlen h0 hlt hM
+
+
+/-- `ProjInv` (stable and importing ranges of every half are pairwise disjoint) follows from the
+shared invariants -/
+theorem C10_projInv_of_invs {c : Cluster} (ht : TwinInv c) (hs : SlotInv c) : ProjInv c :=
+  projInv_of_invs ht hs
+
+/-- **C10_balanced_scale_out**: a balanced cluster of `n` chunks (master `i` of `2n` owns
+`quota (2n) i` slots) followed by `k > 0` empty chunks, nothing pending, `2(n+k) ≤ SLOT_NUM`.
+`migrate_slots` succeeds; and if the cluster it writes satisfies the shared invariants, every chain
+of `#pending` successful `commit_migration` calls (any order, any `clear` flags) ends in a balanced
+cluster of `n + k` chunks: master `i` of `2(n+k)` owns `quota (2(n+k)) i` slots. -/
+theorem C10_balanced_scale_out {s : Store} {name : String} {cl : Cluster} {A B : List Chunk} {n k : Nat}
+    (hv : validName name = true) (hf : s.findCluster name = some cl)
+    (hch : cl.chunks = A ++ B) (hA : A.length = n) (hB : B.length = k) (hn : 0 < n) (hk : 0 < k)
+    (hfull : FullChunks (n * 2) A 0) (hempty : EmptyChunks B) (hnm : NoMigs cl.chunks)
+    (hM : (n + k) * 2 ≤ SLOT_NUM) :
+    ∃ c1, migrateSlots s name = (s.bump.setCluster c1, R.ok ()) ∧
+      (s.bump.setCluster c1).findCluster name = some c1 ∧ c1.chunks.length = n + k ∧
+      (PosInv c1 → TwinInv c1 → SlotInv c1 →
+        ∀ s', CommitChain name (s.bump.setCluster c1) (Cluster.pending c1).length s' →
+          ∃ c', s'.findCluster name = some c' ∧ Balanced c' ∧ BalancedShape c'.chunks (n + k)) := by
+  obtain ⟨c1, h1, h2, h3, h4⟩ := scaleOut_balanced hv hf hch hA hB hn hk hfull hempty hnm hM
+  refine ⟨c1, h1, h2, h3, ?_⟩
+  intro hp ht hs s' hchain
+  exact commitChain_to_balanced h2 (C10_commitInv_of_invs hp ht hs) (h4 (projInv_of_invs ht hs)) hchain
+    (by omega) hM (fun _ _ => rfl)
+
+/-- **C10_balanced_scale_down**: a balanced cluster of `n` chunks, nothing pending, shrinking to
+`0 < n' < n` chunks.  `migrate_slots_to_scale_down` succeeds; and if the cluster it writes satisfies
+the shared invariants, every chain of `#pending` successful commits ends in a cluster whose first
+`n'` chunks are balanced over `2n'` masters and whose remaining chunks are exactly the slot-less
+ones (`BalancedShape … n'`; they are gone if the last commit cleared them). -/
+theorem C10_balanced_scale_down {s : Store} {name : String} {cl : Cluster} {n n' : Nat}
+    (hv : validName name = true) (hf : s.findCluster name = some cl)
+    (hfull : FullChunks (n * 2) cl.chunks 0) (hlen : cl.chunks.length = n) (hnm : NoMigs cl.chunks)
+    (h0 : 0 < n') (hlt : n' < n) (hM : n * 2 ≤ SLOT_NUM) :
+    ∃ c1, migrateSlotsToScaleDown s name (n' * 4) = (s.bump.setCluster c1, R.ok ()) ∧
+      (s.bump.setCluster c1).findCluster name = some c1 ∧ c1.chunks.length = n ∧
+      (PosInv c1 → TwinInv c1 → SlotInv c1 →
+        ∀ s', CommitChain name (s.bump.setCluster c1) (Cluster.pending c1).length s' →
+          ∃ c', s'.findCluster name = some c' ∧ Balanced c' ∧ BalancedShape c'.chunks n') := by
+  obtain ⟨c1, h1, h2, h3, h4⟩ := scaleDown_balanced hv hf hfull hlen hnm h0 hlt hM
+  refine ⟨c1, h1, h2, h3, ?_⟩
+  intro hp ht hs s' hchain
+  exact commitChain_to_balanced h2 (C10_commitInv_of_invs hp ht hs) (h4 (projInv_of_invs ht hs)) hchain
+    h0 (by omega) (fun idx hidx => by simp [hidx])
+
+/-- what `Balanced` / `BalancedShape` say, spelled out by index: the first `N` chunks have both
+halves `Some`, master `i < 2N` owns `quota (2N) i` slots, every later chunk has both halves `None` -/
+theorem C10_balanced_spelled {chunks : List Chunk} {N : Nat} (h : BalancedShape chunks N) :
+    (∀ j ch, chunks[j]? = some ch → j < N → ∃ a b, ch.stable0 = some a ∧ ch.stable1 = some b ∧
+      slotsNum a = quota (N * 2) (j * 2) ∧ slotsNum b = quota (N * 2) (j * 2 + 1)) ∧
+    (∀ j ch, chunks[j]? = some ch → N ≤ j → ch.stable0 = none ∧ ch.stable1 = none) := by
+  obtain ⟨A, B, rfl, hA, hfull, hempty⟩ := h
+  constructor
+  · intro j ch hj hjN
+    rw [List.getElem?_append_left (by omega)] at hj
+    obtain ⟨a, b, e0, e1, _, _, c0, c1⟩ := fullChunks_get _ A 0 hfull j ch hj
+    exact ⟨a, b, e0, e1, by simpa using c0, by simpa using c1⟩
+  · intro j ch hj hjN
+    rw [List.getElem?_append_right (by omega)] at hj
+    exact hempty ch (List.mem_of_getElem? hj)
 
 /-! ## non-vacuity witnesses -/
 
@@ -331,7 +405,7 @@ example : FullChunks (1 * 2) exIdle.chunks.dropLast 0 ∧ EmptyChunks [exChunk n
 example : ∃ A' out, removeSlotsFromSrc exIdle 6 = R.ok (A' ++ [exChunk none none [] "c:1" "d:1"], out) ∧
     A'.length = 1 ∧ FullChunks ((1 + 1) * 2) A' 0 ∧ OutPlan 1 1 6 out ∧
     (NoMigs exIdle.chunks.dropLast → NoMigs A') := by
-  apply C10_balanced_scale_out_plan_partial 6 (A := exIdle.chunks.dropLast) (B := [exChunk none none [] "c:1" "d:1"])
+  apply C10_scale_out_plan 6 (A := exIdle.chunks.dropLast) (B := [exChunk none none [] "c:1" "d:1"])
     rfl rfl rfl (by decide) (by decide)
   · refine ⟨⟨[(0, 8191)], [(8192, 16383)], rfl, rfl, ⟨by simp, by simp⟩, ⟨by simp, by simp⟩, by decide, by decide⟩, trivial⟩
   · intro ch hch; simp at hch; subst hch; exact ⟨rfl, rfl⟩
@@ -346,9 +420,41 @@ def exTwo : Cluster :=
 example : ∃ out, removeSlotsToScaleDown exTwo 6 1 =
     R.ok (exTwo.chunks.take 1 ++ (exTwo.chunks.drop 1).map (fun ch => { ch with stable0 := none, stable1 := none }), out) ∧
     DownPlan 2 1 6 out := by
-  apply C10_balanced_scale_down_plan_partial (n := 2) 6 _ rfl (by decide) (by decide) (by decide)
+  apply C10_scale_down_plan (n := 2) 6 _ rfl (by decide) (by decide) (by decide)
   refine ⟨⟨[(0, 4095)], [(4096, 8191)], rfl, rfl, ⟨by simp, by simp⟩, ⟨by simp, by simp⟩, by decide, by decide⟩,
     ⟨[(8192, 12287)], [(12288, 16383)], rfl, rfl, ⟨by simp, by simp⟩, ⟨by simp, by simp⟩, by decide, by decide⟩, trivial⟩
 
+
+example : ∃ c1, migrateSlots (exStore exIdle) "c" = ((exStore exIdle).bump.setCluster c1, R.ok ()) ∧
+    ((exStore exIdle).bump.setCluster c1).findCluster "c" = some c1 ∧ c1.chunks.length = 1 + 1 ∧
+    (PosInv c1 → TwinInv c1 → SlotInv c1 →
+      ∀ s', CommitChain "c" ((exStore exIdle).bump.setCluster c1) (Cluster.pending c1).length s' →
+        ∃ c', s'.findCluster "c" = some c' ∧ Balanced c' ∧ BalancedShape c'.chunks (1 + 1)) := by
+  apply C10_balanced_scale_out (A := exIdle.chunks.dropLast) (B := [exChunk none none [] "c:1" "d:1"])
+    (by decide) rfl rfl rfl rfl (by decide) (by decide)
+  · refine ⟨⟨[(0, 8191)], [(8192, 16383)], rfl, rfl, ⟨by simp, by simp⟩, ⟨by simp, by simp⟩, by decide, by decide⟩, trivial⟩
+  · intro ch hch; simp at hch; subst hch; exact ⟨rfl, rfl⟩
+  · intro ch hch
+    have : ch = exChunk (some [(0, 8191)]) (some [(8192, 16383)]) [] "a:1" "b:1" ∨ ch = exChunk none none [] "c:1" "d:1" := by
+      simpa [exIdle] using hch
+    rcases this with rfl | rfl <;> exact ⟨rfl, rfl⟩
+  · decide
+
+example : ∃ c1, migrateSlotsToScaleDown (exStore exTwo) "c" (1 * 4) = ((exStore exTwo).bump.setCluster c1, R.ok ()) ∧
+    ((exStore exTwo).bump.setCluster c1).findCluster "c" = some c1 ∧ c1.chunks.length = 2 ∧
+    (PosInv c1 → TwinInv c1 → SlotInv c1 →
+      ∀ s', CommitChain "c" ((exStore exTwo).bump.setCluster c1) (Cluster.pending c1).length s' →
+        ∃ c', s'.findCluster "c" = some c' ∧ Balanced c' ∧ BalancedShape c'.chunks 1) := by
+  apply C10_balanced_scale_down (n := 2) (by decide) rfl _ rfl _ (by decide) (by decide) (by decide)
+  · refine ⟨⟨[(0, 4095)], [(4096, 8191)], rfl, rfl, ⟨by simp, by simp⟩, ⟨by simp, by simp⟩, by decide, by decide⟩,
+      ⟨[(8192, 12287)], [(12288, 16383)], rfl, rfl, ⟨by simp, by simp⟩, ⟨by simp, by simp⟩, by decide, by decide⟩, trivial⟩
+  · intro ch hch
+    have : ch = exChunk (some [(0, 4095)]) (some [(4096, 8191)]) [] "a:1" "b:1" ∨
+        ch = exChunk (some [(8192, 12287)]) (some [(12288, 16383)]) [] "c:1" "d:1" := by
+      simpa [exTwo] using hch
+    rcases this with rfl | rfl <;> exact ⟨rfl, rfl⟩
+
+/-- the shared invariants are satisfiable by a cluster with pending tasks (the scale-out witness) -/
+example : PosInv exMig ∧ TwinInv exMig := ⟨witness_commitInv.pos, witness_commitInv.twin⟩
 
 end Um.Broker.C10
